@@ -31,3 +31,6 @@ doc = {"property": "C02", "clause": "C02.B.residue", "signature": {"exact": sha1
 path = os.path.join(os.path.dirname(os.path.dirname(os.path.abspath(__file__))), "findings", "C02-catch-midexpr-throw-finally-continue-leak.json")
 json.dump(doc, open(path, "w"), indent=1, sort_keys=True)
 print(path)
+
+mk("C02-recursionerror-swallowed-by-regexp-compile", "C02.A.class",
+   {"stratum": "A", "shape": "cb_forEach", "pend": "stmt", "try": "none", "site": "top", "probe": "regexp"}, 100000)
